@@ -47,7 +47,16 @@ pub enum Op {
     Up(SessSpec),
     FailedConnect,
     Down(u8),
-    Announce { fam: u8, prefix: u8, no_llgr: bool },
+    Announce {
+        fam: u8,
+        prefix: u8,
+        no_llgr: bool,
+        /// carries the community the import policy rejects: the path is held but hidden from selection
+        #[serde(default)]
+        rejected: bool,
+    },
+    /// next-hop tracking reports next hop `k` (of the two the announcements use) reachable or not
+    NextHop { k: u8, reachable: bool },
     Eor(u8),
     Advance(u16),
 }
@@ -126,6 +135,26 @@ async fn run_on(c: &Case, mut wire: Option<WireRig>) -> CheckResult {
         None => IpAddr::V4(PEER),
     };
     let rig = GrRig::new(addr, &tables);
+    // import policy: reject routes carrying 65000:1 (they stay in the Adj-RIB-In, hidden from selection)
+    let (_policy_table, import) = {
+        use super::c14::*;
+        let p = Program {
+            prefix_sets: vec![vec![(1, 8, 32)]],
+            neighbor_sets: vec![vec![0]],
+            aspath_sets: vec![vec![AsPat::Include(1)]],
+            comm_sets: vec![vec![CommPat::Exact(0xfde8_0001)]],
+            ext_sets: vec![vec![1]],
+            large_sets: vec![vec![(1, 2, 3)]],
+            policies: vec![vec![0]],
+            stmts: vec![Stmt { conds: vec![Cond::CommunitySet(0, Opt::Any)], disp: Some(false), act: Act::default() }],
+            assign: vec![0],
+            default_accept: true,
+            export: false,
+            is_confed: false,
+        };
+        load(&p).map_err(|e| Failure::new("harness", format!("policy load: {e}")))?
+    };
+    tables.import_policy.store(Some(import));
     let mut live: Option<Live> = None;
     // families kept by the last eligible drop (restart timer covers them) / by LLGR
     let mut kept_gr: Vec<Family> = Vec::new();
@@ -222,7 +251,13 @@ async fn run_on(c: &Case, mut wire: Option<WireRig>) -> CheckResult {
                 }
                 last_down = Some((name, eligible || (s.llgr.is_some() && matches!(r % 9, 0 | 1))));
             }
-            Op::Announce { fam, prefix, no_llgr } => {
+            Op::NextHop { k, reachable } => {
+                what = "next-hop-report";
+                tables.update_nexthop_validity(IpAddr::V4(Ipv4Addr::new(192, 0, 2, 1 + k % 2)), *reachable);
+                tables.update_nexthop_validity("2001:db8::1".parse().unwrap(), *reachable || k % 2 == 0);
+                info.classes.push("next-hop-report");
+            }
+            Op::Announce { fam, prefix, no_llgr, rejected } => {
                 let Some(l) = live.as_mut() else { continue 'steps };
                 let fi = *fam as usize % 3;
                 if l.spec.fams & (1 << fi) == 0 {
@@ -233,6 +268,11 @@ async fn run_on(c: &Case, mut wire: Option<WireRig>) -> CheckResult {
                 if *no_llgr {
                     spec.communities = vec![0xffff_0007];
                 }
+                if *rejected {
+                    spec.communities.push(0xfde8_0001);
+                    info.classes.push("announce-rejected-by-import-policy");
+                }
+                let nh4 = Ipv4Addr::new(192, 0, 2, 1 + prefix % 2);
                 let n = nlri(FAMS[fi], *prefix % 4);
                 if *no_llgr {
                     no_llgr_marked.insert(format!("{n:?}"));
@@ -241,9 +281,9 @@ async fn run_on(c: &Case, mut wire: Option<WireRig>) -> CheckResult {
                 }
                 match wire.as_mut() {
                     None => {
-                        let _ = tables.insert_route(l.sources[fi].clone(), FAMS[fi], PathNlri { path_id: 0, nlri: n }, Some(Nexthop::V4(Ipv4Addr::new(192, 0, 2, 1))), Arc::new(spec.build()), None, 1);
+                        let _ = tables.insert_route(l.sources[fi].clone(), FAMS[fi], PathNlri { path_id: 0, nlri: n }, Some(Nexthop::V4(nh4)), Arc::new(spec.build()), None, 1);
                     }
-                    Some(w) => w.announce(FAMS[fi], n, spec.build()).await?,
+                    Some(w) => w.announce(FAMS[fi], n, nh4, spec.build()).await?,
                 }
                 l.announced.insert((fi, *prefix % 4));
             }
@@ -346,7 +386,8 @@ pub fn arb_case(max: usize) -> impl Strategy<Value = Case> {
         4 => arb_spec().prop_map(Op::Up),
         2 => Just(Op::FailedConnect),
         4 => (0u8..9).prop_map(Op::Down),
-        5 => (0u8..3, 0u8..4, prop::bool::weighted(0.2)).prop_map(|(fam, prefix, no_llgr)| Op::Announce { fam, prefix, no_llgr }),
+        5 => (0u8..3, 0u8..4, prop::bool::weighted(0.2), prop::bool::weighted(0.25)).prop_map(|(fam, prefix, no_llgr, rejected)| Op::Announce { fam, prefix, no_llgr, rejected }),
+        2 => (0u8..2, prop::bool::weighted(0.4)).prop_map(|(k, reachable)| Op::NextHop { k, reachable }),
         2 => (0u8..3).prop_map(Op::Eor),
         3 => prop_oneof![Just(1u16), Just(4), Just(6), Just(31), Just(59), Just(61), Just(125), Just(700)].prop_map(Op::Advance),
     ];
@@ -572,10 +613,10 @@ impl WireRig {
         Ok(())
     }
 
-    pub async fn announce(&mut self, family: Family, nlri: packet::Nlri, attrs: Vec<packet::Attribute>) -> Result<(), Failure> {
+    pub async fn announce(&mut self, family: Family, nlri: packet::Nlri, nh4: Ipv4Addr, attrs: Vec<packet::Attribute>) -> Result<(), Failure> {
         let nexthop = match family {
             Family::IPV6 => Nexthop::V6("2001:db8::1".parse().unwrap()),
-            _ => Nexthop::V4(Ipv4Addr::new(192, 0, 2, 1)),
+            _ => Nexthop::V4(nh4),
         };
         let msg = bgp::Message::Update(bgp::Update::Reach { family, entries: vec![PathNlri { path_id: 0, nlri }], nexthop: Some(nexthop), attr: Arc::new(attrs) });
         self.send(&msg).await
